@@ -699,6 +699,70 @@ func generate(a *Args, rng *Rng, run func(*c06Case), runSeq func([]*c06Case)) {
 		}
 		run(c)
 	}
+	realStore(rng, run, runSeq)
+}
+
+// realStore drives the REAL trust store object (truststore.NewX509TrustStore on a directory tree written by the
+// driver) instead of the scripted one: a ca store and a tsa store with the SAME name and different content (HOWTO
+// lesson 8: one name in two namespaces). processSignature loads the ca store (authenticity) before verifyTimestamp
+// loads the tsa store through the same object; the TSA must chain to what truststore/x509/tsa/<name> holds, never to
+// what the equally named ca store holds.
+func realStore(rng *Rng, run func(*c06Case), runSeq func([]*c06Case)) {
+	mk := func(fam string, stores []string, opt string, fs *fsDesc, pki string) *c06Case {
+		c := valid(rng, false, 2)
+		c.Fam, c.Stores, c.Opt, c.FS, c.Anchor = fam, stores, opt, fs, 0
+		c.Tok = tokDesc{Kind: "ok", Msg: "sig", PKI: pki, GenH: -20, Acc: 1}
+		if opt == "afterCertExpiry" {
+			c.Win[0] = [2]int{-100, -5} // expired leaf: timestamp verification applies
+		}
+		return c
+	}
+	layouts := []struct {
+		what    string
+		ca, tsa []string // content of ca/<n> besides the anchor, of tsa/<n> (nil = no directory)
+	}{
+		{"TSA root only in tsa store", nil, []string{"a"}},
+		{"TSA root only in ca store", []string{"a"}, []string{"b"}},
+		{"TSA root in both", []string{"a"}, []string{"a"}},
+		{"TSA root in neither", nil, []string{"b"}},
+		{"TSA root only in ca store, tsa store has no directory", []string{"a"}, nil},
+	}
+	layout := func(caName, tsaName string, ca, tsa []string) *fsDesc {
+		f := &fsDesc{CA: map[string][]string{caName: append([]string{"anchor"}, ca...)}, TSA: map[string][]string{}}
+		if tsa != nil {
+			f.TSA[tsaName] = tsa
+		}
+		return f
+	}
+	for _, l := range layouts {
+		for _, caFirst := range []bool{true, false} {
+			for _, opt := range c06Opts {
+				stores := []string{"ca:acme", "tsa:acme"}
+				if !caFirst {
+					stores = []string{"tsa:acme", "ca:acme"}
+				}
+				run(mk("realstore:same name under ca and tsa, "+l.what, stores, opt, layout("acme", "acme", l.ca, l.tsa), "a"))
+			}
+		}
+		// control: different names
+		run(mk("realstore:different names, "+l.what, []string{"ca:s1", "tsa:t1"}, Pick(rng, c06Opts), layout("s1", "t1", l.ca, l.tsa), "a"))
+	}
+	// ONE verifier and ONE store object, two verifications, both orders: the token of TSA A must fail and the token of
+	// TSA B must pass when tsa/acme holds B's root and ca/acme holds A's root
+	for _, order := range [][]string{{"a", "b"}, {"b", "a"}, {"a", "a"}} {
+		for _, opt := range []string{"always", "afterCertExpiry"} {
+			sess := &session{rv: &tsRev{}}
+			var cs []*c06Case
+			for i, p := range order {
+				c := mk("history:realstore same name", []string{"ca:acme", "tsa:acme"}, opt, layout("acme", "acme", []string{"a"}, []string{"b"}), p)
+				c.Hist = fmt.Sprintf("realstore %s#%d", strings.Join(order, ""), i+1)
+				c.Level, c.AExp, c.ATs = "strict", "Enforce", "Enforce"
+				c.sess = sess
+				cs = append(cs, c)
+			}
+			runSeq(cs)
+		}
+	}
 }
 
 // histories runs sequences of calls on one verifier instance (same policy,
